@@ -518,6 +518,43 @@ fn run_case(case: &Case, ctx: &mut Ctx) -> Option<Failure> {
                                     ));
                                 }
                             }
+                            // and the value resolves (which picks the branch of every union anew) to
+                            // the same thing against the schemas of either ordering
+                            let resolved = |s: &Schema, all: &[Schema]| {
+                                let ordered: Vec<&Schema> = names.iter().filter_map(|n| all.iter().find(|x| &schema_name(x) == n)).collect();
+                                guarded(|| val.clone().resolve_schemata(s, ordered).map_err(|e| e.to_string()))
+                            };
+                            let (xa, xb) = (resolved(sa, va), resolved(sb, vb));
+                            ctx.eval();
+                            ctx.agg.count("probe.cross_ordering_resolve_check");
+                            let mut same = match (&xa, &xb) {
+                                (Ok(Ok(x)), Ok(Ok(y))) => x == y,
+                                (Ok(Err(_)), Ok(Err(_))) => true,
+                                _ => false,
+                            };
+                            // (a dependence on something no seam owns - the per-map hash seed - shows
+                            // only between independent parses: a few more of them, so that a replay
+                            // of such a finding does not hang on one coin)
+                            let mut xb = xb;
+                            if same && texts.iter().any(|t| t.contains("\"twins\"")) {
+                                for _ in 0..5 {
+                                    if let Ok(Outcome { res: Ok(vc), .. }) = run_lib(&texts, &identity, &[], main_text.as_deref()) {
+                                        let xc = resolved(&vc[i], &vc);
+                                        if !matches!((&xa, &xc), (Ok(Ok(x)), Ok(Ok(y))) if x == y) && !matches!((&xa, &xc), (Ok(Err(_)), Ok(Err(_)))) {
+                                            same = false;
+                                            xb = xc;
+                                            break;
+                                        }
+                                    }
+                                }
+                            }
+                            if !same {
+                                return Some(Failure::new(
+                                    "data-differs-between-orderings",
+                                    "C20 data-differs-between-orderings via=resolve".to_string(),
+                                    format!("value of {} resolves to {xa:?} against the baseline ordering's schemas and to {xb:?} against the schemas of another parse of the same set", m.top[i]),
+                                ));
+                            }
                         }
                     }
                 }
@@ -754,6 +791,38 @@ fn gen_set(r: &mut Rng) -> Vec<RS> {
                     if let RS::Record { fields, .. } = &mut inputs[i] {
                         fields.push(("same".into(), RS::Enum { full: "p.Clash_9".into(), style: NameStyle::Dotted, symbols: vec!["Q".into()] }));
                     }
+                }
+            }
+        }
+        4 => {
+            // a bare name inside a namespace means <that namespace>.<name>: written without the
+            // leading dot, a reference to a null-namespace input dangles - under every ordering
+            let nulls: Vec<usize> = (0..n).filter(|j| split_full(&tops[*j].0).0.is_none()).collect();
+            let nsd: Vec<usize> = (0..n).filter(|i| split_full(&tops[*i].0).0.is_some() && matches!(inputs[*i], RS::Record { .. })).collect();
+            if !nulls.is_empty() && !nsd.is_empty() {
+                let target = tops[*g.r.pick(&nulls)].0.clone();
+                let i = *g.r.pick(&nsd);
+                if let RS::Record { fields, .. } = &mut inputs[i] {
+                    fields.push(("bare".into(), RS::Union(vec![RS::Null, RS::Ref { full: target, short: false }])));
+                }
+            }
+        }
+        5 | 6 => {
+            // two or three inputs of the same shape under different names, and a union of references
+            // to them: a value that fits every branch must land in the same one whatever the ordering
+            let k = 2 + g.r.below(2) as usize;
+            let tag = g.r.below(1000);
+            let mut refs = vec![RS::Null];
+            for t in 0..k {
+                let full = format!("tw{t}.Ev_{tag}");
+                refs.push(RS::Ref { full: full.clone(), short: false });
+                inputs.push(RS::Record { full, style: if t % 2 == 0 { NameStyle::Dotted } else { NameStyle::NsAttr }, fields: vec![("id".into(), RS::Long), ("what".into(), RS::String)] });
+            }
+            let holders: Vec<usize> = (0..n).filter(|i| matches!(inputs[*i], RS::Record { .. })).collect();
+            if !holders.is_empty() {
+                let i = *g.r.pick(&holders);
+                if let RS::Record { fields, .. } = &mut inputs[i] {
+                    fields.push(("twins".into(), RS::Union(refs)));
                 }
             }
         }
